@@ -3,6 +3,7 @@
 //@tier quick
 //@profile rel
 //@rlimit 150
+//@features default
 //@assume the reader / writer / matcher are abstract traits. Reader: std's contract with I/O errors excluded (compress() unwraps them: a failing reader or writer panics by design) - Ok(n) delivers the next n <= buf.len() bytes, Ok(0) on a non-empty buffer only at end of input. Writer: write_all appends. Matcher: get_next_space returns a buffer of the matcher's (non-zero) slice size
 //@assume compress_fastest is abstract with the contract Verus unit E4V proves on its verbatim body (cross-checked by Kani E4): it appends ONE block that carries the given last-block flag and stands for the given data (`is_block`, uninterpreted); BlockHeader / FrameHeader::serialize append their (uninterpreted) byte images (Kani H1' / E3 prove those against the RFC)
 //@assume XxHash64 is abstract: a ghost sequence of absorbed bytes, `finish` is an uninterpreted function of it (twox-hash is trusted as XXH64)
